@@ -5,7 +5,7 @@ from unitgen import Raw, Prelude, Item, Rewrite
 NAME = 'u_htok'
 PROPERTIES = ['C01', 'C03', 'C04', 'C08', 'C09', 'C14', 'C19']
 CONTRACTS = 'u_htok.contracts'
-SHARED_CONTRACTS = ['u_bq.contracts', 'u_small.contracts']
+SHARED_CONTRACTS = ['u_hcr.contracts', 'u_bq.contracts', 'u_small.contracts']
 BQ = 'markup5ever/util/buffer_queue.rs'
 RLIMIT = 20
 M = 'html5ever/src/tokenizer/mod.rs'
@@ -22,7 +22,7 @@ REWRITES = [
     Rewrite('R2-generics', r'<Sink: TokenSink>', ''),
     Rewrite('R2-generics', r'\bSelf::is_supported_simd_feature_detected\b', 'Tokenizer::is_supported_simd_feature_detected'),
     # ---- R1: interior mutability made explicit
-    Rewrite('R1-receiver', r'(fn \w+(?:<[^>]*>)?\(\s*)&self\b', r'\1&mut self'),
+    Rewrite('R1-receiver', r'(fn \w+(?:<[^>]*>)?\(\s*)&self\b', r'\1&mut self', skip=('CharRefTokenizer::name_buf',)),
     Rewrite('R1-receiver', r'\binput: &BufferQueue\b', 'input: &mut BufferQueue'),
     Rewrite('R1-receiver', r'\btokenizer: &Tokenizer\b', 'tokenizer: &mut Tokenizer'),
     Rewrite('R1-receiver', r'&BufferQueue::default\(\)', '&mut BufferQueue::default()'),
@@ -37,7 +37,26 @@ REWRITES = [
     Rewrite('R6-strcmp', r'\(\*\*self\.current_tag_name\.borrow\(\) == \*\*last\)', '(last.eq_tendril(&self.current_tag_name.borrow()))'),
     Rewrite('R6-strcmp', r'LocalName::from\(&\*\*self\.(\w+)\.borrow\(\)\)', r'LocalName::from_tendril(&self.\1.borrow())'),
     Rewrite('R6-strcmp', r'QualName::new\(None, ns!\(\), name\)', 'QualName::new_plain(name)'),
-    # ---- R15: error-message wording is dropped (format!/Cow); which errors are raised is kept
+    # ---- R30: a RefMut of the RefCell<Option<CharRefTokenizer>> is held across calls that take `self`.  With `&mut self`
+    #      (R1) the content is moved out of the cell for the scope of the RefMut and moved back where the RefMut is dropped
+    #      (before the early return and at the end of the function).  Equivalent iff nothing inside the scope touches the
+    #      cell; in the real code such a touch is a BorrowMutError panic.
+    Rewrite('R30-refmut-takeput', r'let mut char_ref_tokenizer = self\.char_ref_tokenizer\.borrow_mut\(\);',
+            'let mut char_ref_tokenizer = self.char_ref_tokenizer.take();', only=('Tokenizer::step_char_ref_tokenizer',), min_count=1),
+    Rewrite('R30-refmut-takeput', r'\*char_ref_tokenizer = None;',
+            'char_ref_tokenizer = None; self.char_ref_tokenizer.put_back(char_ref_tokenizer);', only=('Tokenizer::step_char_ref_tokenizer',), min_count=2),
+    Rewrite('R30-refmut-takeput', r'\n(\s*)progress\n(\s*)\}\s*$',
+            r'\n\1self.char_ref_tokenizer.put_back(char_ref_tokenizer); progress\n\2}', only=('Tokenizer::step_char_ref_tokenizer',), min_count=3),
+    # ---- R31: Verus 0.2026.09.13 loses track of a `&mut` parameter that is passed on inside a GUARDED match arm (the
+    #      parameter's final value is left unconstrained although the callee's contract constrains it).  The guard of
+    #      `Some(';') if G => E,` is moved into the arm: `Some(';') => { if G { E } },`.  Same meaning here because the only
+    #      arm that follows is `_ => ()` and E has type ().
+    Rewrite('R31-guard-into-arm', r"Some\(';'\) if self\.name_buf\(\)\.len\(\) > 1 => self\.emit_name_error\(tokenizer\),(\s*)_ => \(\),",
+            r"Some(';') => { if self.name_buf().len() > 1 { self.emit_name_error(tokenizer) } },\1_ => (),", only=('CharRefTokenizer::finish_named',), min_count=1),
+    # ---- R15: error-message wording is dropped (format!/Cow); which errors are raised is kept.  The one message
+    #      argument that can panic (name_buf()) is still evaluated.
+    Rewrite('R15-msgarg', r'Cow::from\(format!\("Invalid character reference &\{\}", self\.name_buf\(\)\)\)',
+            '{ let _nb = self.name_buf(); Cow::msg() }', min_count=1),
     Rewrite('R15-msg', r'\bCow::from\(', 'Cow::msg()', balanced=True),
     Rewrite('R15-msg', r'\bCow::Owned\(', 'Cow::msg()', balanced=True),
     Rewrite('R15-msg', r'\bBorrowed\(', 'Cow::msg()', balanced=True),
@@ -135,6 +154,7 @@ TYPES = [
          rewrites=(Rewrite('R-rename', r'\benum State\b', 'pub enum CrState'),), attrs=DERIVE),
     Item(CR, 'struct', 'CharRefTokenizer', rewrites=CR_RENAME),
     Item(CR, 'const', 'EMPTY', wrap='impl CharRef', qname='CharRef::EMPTY'),
+    Raw('pub mod char_ref { pub use super::Status; }'),
 ]
 
 PARTS = MACROS + [
@@ -151,7 +171,9 @@ PARTS = MACROS + [
     Item('markup5ever/util/buffer_queue.rs', 'struct', 'BufferQueue'),
     Prelude('htok.spec.rs'),
     Prelude('whatwg.spec.rs'),
+    Prelude('charref.spec.rs'),
     Prelude('htok.abs.rs'),
+    Prelude('hcr.abs.rs'),
 ] + [Item('markup5ever/util/buffer_queue.rs', 'fn', n, impl='BufferQueue', wrap='impl BufferQueue', mode='assume', unit_rewrites=False,
           rewrites=(Rewrite('R1-receiver', r'\(&self\b', '(&mut self', only=('BufferQueue::pop_front', 'BufferQueue::push_front', 'BufferQueue::push_back', 'BufferQueue::pop_except_from', 'BufferQueue::eat', 'BufferQueue::next', 'BufferQueue::peek_front_chunk_mut')),
                     Rewrite('R17-refmut', r"Option<RefMut<'_, StrTendril>>", 'Option<&mut StrTendril>')))
@@ -169,8 +191,7 @@ PARTS = MACROS + [
     tk('dump_profile', mode='assume'),
     tk('is_supported_simd_feature_detected', mode='assume'), tk('data_state_simd_fast_path', mode='assume'),
     tk('data_state_sse2_fast_path', mode='assume'),
-    cr('new', canary=False),
-] + [cr(n, mode=CR_MODE) for n in ('name_buf', 'name_buf_mut', 'finish_one', 'step', 'do_begin', 'do_octothorpe',
+] + [cr(n, mode=CR_MODE) for n in ('new', 'name_buf', 'name_buf_mut', 'finish_one', 'step', 'do_begin', 'do_octothorpe',
     'do_numeric', 'do_numeric_semicolon', 'unconsume_numeric', 'finish_numeric', 'do_named',
     'emit_name_error', 'unconsume_name', 'finish_named', 'do_bogus_name', 'end_of_file')] + [
     Raw('} // verus!\nfn main() {}'),
